@@ -482,6 +482,9 @@ def setitem(I, obj, idx, v):
     v = _store_cast(I, obj, v)
     if isinstance(obj, Ref) and obj.kind in ('clist', 'slist') and obj.nd and _is_bool_mask(I, idx):
         return mask_assign(I, obj, idx, v)
+    if isinstance(obj, Ref) and obj.kind == 'clist' and obj.nd and not st.heap[obj] and isinstance(idx, Ref) and idx.kind == 'clist' \
+            and idx.nd and not st.heap[idx]:
+        return                              # empty array, empty selection: nothing to assign
     if isinstance(obj, Ref) and obj.kind in ('clist', 'slist') and obj.nd and isinstance(idx, Ref) and idx.kind == 'clist' \
             and all(isinstance(k, int) and not isinstance(k, bool) for k in st.heap[idx]):
         # a[[i0, i1, ...]] = scalar | sequence of the same length   (numpy integer-array assignment, concrete indices):
@@ -812,6 +815,9 @@ def _is_bool_mask(I, idx):
 def fancy_index(I, obj, idx):
     if _is_bool_mask(I, idx):
         return MaskedSel(obj, idx)
+    if isinstance(idx, Ref) and idx.kind == 'clist' and idx.nd and not I.st.heap[idx] and \
+            isinstance(obj, Ref) and obj.kind == 'clist' and not I.st.heap[obj]:
+        return MaskedSel(obj, idx)          # empty array selected by the (empty) result of a comparison on it
     raise Unsupported('fancy indexing')
 
 
